@@ -161,27 +161,40 @@ Definition wildcard_at (s : text) : option text :=
   | _ => None
   end.
 
-(* [skip] = characters of a wildcard already replaced that are still to be consumed *)
-Fixpoint fill_aux (binds : list (text * text)) (skip : nat) (s : text) : option text :=
+(* the other lines of a multi-line binding get the indentation of a slot that stands alone on its line *)
+Fixpoint indent_after_nl (k : nat) (v : text) : text :=
+  match v with
+  | [] => []
+  | c :: tl => if c =? NL then NL :: spaces k ++ indent_after_nl k tl else c :: indent_after_nl k tl
+  end.
+
+(* [skip] = characters of a wildcard already replaced that are still to be consumed;
+   [lead] = Some k when the template line so far consists of k blanks *)
+Fixpoint fill_aux (binds : list (text * text)) (lead : option nat) (skip : nat) (s : text) : option text :=
   match s with
   | [] => Some []
   | c :: tl =>
       match skip with
-      | S k => fill_aux binds k tl
+      | S k => fill_aux binds None k tl
       | O =>
           match wildcard_at s with
           | Some w =>
-              match text_lookup w binds, fill_aux binds (length w + 3) tl with
-              | Some v, Some rest => Some (v ++ rest)
+              match text_lookup w binds, fill_aux binds None (length w + 3) tl with
+              | Some v, Some rest =>
+                  Some ((match lead with Some (S k) => indent_after_nl (S k) v | _ => v end) ++ rest)
               | _, _ => None
               end
-          | None => match fill_aux binds O tl with Some rest => Some (c :: rest) | None => None end
+          | None =>
+              let lead' := if c =? NL then Some O
+                           else if c =? SP then match lead with Some k => Some (S k) | None => None end
+                           else None in
+              match fill_aux binds lead' O tl with Some rest => Some (c :: rest) | None => None end
           end
       end
   end.
 
 Definition format_template (tmpl : text) (binds : list (text * text)) : option text :=
-  fill_aux binds O tmpl.
+  fill_aux binds (Some O) O tmpl.
 
 (* ------------------------------------------------------------------------------------------ *)
 (* textwrap.dedent (space-only indentation) and textwrap.indent *)
@@ -231,12 +244,22 @@ Definition match_indentation (src : text) (r : range) : nat :=
   let seg := slice src (Z.of_nat ls, snd r) in
   indentation_of_line (let '(a, _, _) := partition_nl seg in a).
 
-Definition place_replacement (src : text) (r : range) (filled : text) : text :=
-  let '(first, sep, others) := partition_nl (dedent filled) in
-  first ++ sep ++ indent (match_indentation src r) others.
+Fixpoint indent_lines (k : nat) (strl : list nat) (i : nat) (ls : list text) : list text :=
+  match ls with
+  | [] => []
+  | l :: tl =>
+      (if Nat.eqb i 0 || existsb (Nat.eqb i) strl || negb (nonblank l) then l else spaces k ++ l)
+      :: indent_lines k strl (S i) tl
+  end.
 
-(* one match as found by the matcher: range of the matched node(s), wildcard bindings by unparsed text *)
-Definition smatch := (range * list (text * text))%type.
+(* [strl] = the (0-based) lines of the dedented text that begin inside a string literal
+   (processing._lines_inside_string_literals, a tokenizer question: an input of the model) *)
+Definition place_replacement (src : text) (r : range) (strl : list nat) (filled : text) : text :=
+  join_nl (indent_lines (match_indentation src r) strl O (split_nl (dedent filled))).
+
+(* one match as found by the matcher: range of the matched node(s), wildcard bindings by unparsed text,
+   string-literal lines of its instantiated replacement *)
+Definition smatch := (range * list (text * text) * list nat)%type.
 
 Definition take_count {X} (count : Z) (l : list X) : list X :=
   if 0 <? count then firstn (Z.to_nat count) l else l.
@@ -246,9 +269,9 @@ Definition take_count {X} (count : Z) (l : list X) : list X :=
 Fixpoint items_of (src tmpl : text) (ms : list smatch) : option (list (range * text)) :=
   match ms with
   | [] => Some []
-  | (r, binds) :: tl =>
+  | (r, binds, strl) :: tl =>
       match format_template tmpl binds, items_of src tmpl tl with
-      | Some f, Some rest => Some ((r, place_replacement src r f) :: rest)
+      | Some f, Some rest => Some ((r, place_replacement src r strl f) :: rest)
       | _, _ => None
       end
   end.
@@ -326,13 +349,23 @@ Fixpoint first_valid (src : text) (r : range) (n : text) (extras : list nat) (df
                if valid c then c else first_valid src r n tl dflt
   end.
 
+(* [wrap r]: the code at r is a generator expression written with the parentheses of the call it is the
+   only argument of, and the replacement is not such a generator again (a parser question);
+   [mlstr t]: a line of t begins inside a string literal (a tokenizer question).  Both are inputs. *)
+Variable wrap : range -> bool.
+Variable mlstr : text -> bool.
+
+Definition wrapped (r : range) (n : text) : text :=
+  if wrap r && nonblank n then 40 :: n ++ [41] else n.
+
 Definition do_rewrite (src : text) (rw : range * text) : text :=
-  let '(r, n) := rw in
+  let '(r, n0) := rw in
   let code := slice src r in
-  if text_eqb n code then src
+  if text_eqb n0 code then src
   else if ignored (ignore_lines src) r then src
-  else if ws_only_change n code then src
+  else if ws_only_change n0 code && negb (mlstr code || mlstr n0) then src
   else
+    let n := wrapped r n0 in
     let cand := splice_t src r n in
     let nonempty := match n with [] => false | _ => true end in
     let choice :=
@@ -362,14 +395,15 @@ Definition sched_pairs (l : list (tkey * rewrite text)) : list (range * text) :=
 Definition subn_sched_text (src : text) (items : list (range * text)) : list (tkey * rewrite text) :=
   subn_schedule text text_eqb text_cmp (ignore_lines src) items.
 
-Definition subn_candidate (valid : text -> bool) (src : text) (items : list (range * text)) : text :=
-  do_all valid src (sched_pairs (subn_sched_text src items)).
+Definition subn_candidate (valid : text -> bool) (wrap : range -> bool) (mlstr : text -> bool)
+           (src : text) (items : list (range * text)) : text :=
+  do_all valid wrap mlstr src (sched_pairs (subn_sched_text src items)).
 
 (* _apply_rewrites: roll back to the source when the candidate does not parse (restore = the
    _substitute_original_(f)strings step, an abstract function as in SchedModel.apply_rewrites) *)
-Definition subn_output (valid : text -> bool) (restore : text -> text -> text)
-           (src : text) (items : list (range * text)) : text :=
-  let c := subn_candidate valid src items in
+Definition subn_output (valid : text -> bool) (wrap : range -> bool) (mlstr : text -> bool)
+           (restore : text -> text -> text) (src : text) (items : list (range * text)) : text :=
+  let c := subn_candidate valid wrap mlstr src items in
   if negb (valid c) then src
   else let c' := restore src c in if negb (valid c') then src else c'.
 
@@ -391,6 +425,8 @@ Record subn_case := mkSubn {
   sc_count : Z;
   sc_matches : list smatch;             (* all matches of the pattern, in the matcher's yield order *)
   sc_valid : list (text * bool);        (* answers of core.is_valid_python observed during the run *)
+  sc_wraps : list range;                (* ranges whose replacement gets the call's parentheses back *)
+  sc_mlstr : list text;                 (* texts with a line that begins inside a string literal *)
   sc_ilines : list range;               (* lines carrying an ignore comment (harness-side regex) *)
   sc_items : option (list (range * text));  (* what find_replace yielded inside subn; None = ValueError *)
   sc_sched : list flat_entry;           (* what _schedule_rewrites returned *)
@@ -422,7 +458,9 @@ Definition model_sched (c : subn_case) : list flat_entry :=
 
 Definition model_cand_d (dflt : bool) (c : subn_case) : text :=
   match model_items c with
-  | Some its => subn_candidate (valid_table dflt (sc_valid c)) (sc_src c) its
+  | Some its => subn_candidate (valid_table dflt (sc_valid c))
+                               (fun r => existsb (range_eqb r) (sc_wraps c))
+                               (fun t => existsb (text_eqb t) (sc_mlstr c)) (sc_src c) its
   | None => sc_src c
   end.
 Definition model_cand (c : subn_case) : text := model_cand_d false c.
